@@ -57,6 +57,10 @@ def main():
                 rc0, o0 = sh(demo_run, cwd=os.path.join(wt, demo_dir))
                 res["demo_passes_without_patch"] = rc0 == 0
             rc, o = sh(f"git -C {wt} apply {d}/patch.diff")
+            if rc != 0:
+                # the patch was made before a later fix: commit touched the same file: three-way
+                rc, o = sh(f"git -C {wt} apply --3way {d}/patch.diff")
+                res["applied_with_3way"] = True
             assert rc == 0, "patch does not apply: " + o
             if confirm:
                 if demo:
